@@ -24,7 +24,7 @@ from netqasm.lang.parsing import deserialize  # noqa: E402
 from netqasm.lang.subroutine import Subroutine  # noqa: E402
 
 PID = "C01"
-ITEM_BUDGET_S = 15
+ITEM_BUDGET_S = 60       # per (flavour, classes) item; main() raises it for the thorough tier
 DEADLINE = None      # set by main() before the workers are forked: wall-clock cap of the whole round-trip stage
 FLAVS = ("vanilla", "nv", "reids")
 
@@ -315,7 +315,9 @@ def main(tier, seed):
                              for x in (c,) + tuple(tail)]
                     items.append((fname, names, [tuple(banks)]))
     global DEADLINE
-    DEADLINE = time.time() + (3600 if tier == "thorough" else 240)
+    global ITEM_BUDGET_S
+    ITEM_BUDGET_S = 1800 if tier == "thorough" else 60
+    DEADLINE = time.time() + (5400 if tier == "thorough" else 600)
     results = pmap(work_roundtrip_one, items)
     for r in results:
         rep.merge_worker("roundtrip", r)
